@@ -196,6 +196,7 @@ Definition io_allow : list (string * list string) :=
    ("src/output/stderroutput", ["fprintf"]);
    ("src/output/stdoutoutput", ["dprintf"]);
    ("src/output/syslogoutput", ["openlog"; "syslog"; "closelog"]);
+   ("src/tsrm", ["localtime_r"]);                             (* snoopy_tsrm_localtime_r: localtime_r under the library's own mutex (thread-safe build, fix 6a78d5f); the call of the datetime model *)
    ("src/util/file", ["fopen"; "fread"; "fclose"]);
    ("src/util/pwd", ["getpwuid_r"]);
    ("src/util/utmp", ["setutent"; "getutline_r"; "endutent"; "utmpname"])].   (* utmpname: test helper only *)
